@@ -78,7 +78,7 @@ CHECKS = {
             "tables equal the sequentially built ones, builds serialise.", TB_REAL + "; threads interleave only at node entries / the chosen pause point (finer interleavings are outside the claim)"),
 }
 
-NA_REASON = "check not built yet (work in progress)"
+NA_REASON = "not claimed"
 
 
 def main():
@@ -91,7 +91,7 @@ def main():
             "thorough_cmd": "./check %s thorough" % pid,
             "evidence_file": "evidence/%s.json" % pid,
             "replay_cmd_template": "./check %s --replay {path}" % pid,
-            "engine": "SX",
+            "engine": "SX+CH" if pid in ("C01", "C02", "C03", "C07", "C12", "C15", "C20") else "SX",
             "level_claimed": {"category": cat, "text": text, "design_ref": "DESIGN.md section " + ref},
             "level_note": note,
             "technique": tech,
@@ -109,7 +109,9 @@ def main():
         },
         "engines": [
             {"name": "SX", "path": "sx/", "serves_properties": sorted(CHECKS),
-             "kind_free_text": "own z3-backed path-exploring symbolic executor running the unmodified tawazi modules in CPython (symbolic ints/bools/uninterpreted values, solver-chosen schedules and faults)"},
+             "kind_free_text": "own z3-backed path-exploring symbolic executor running the unmodified tawazi modules in CPython (symbolic ints/bools/uninterpreted values, solver-chosen schedules, faults, programs and histories); counterexamples are replayed concretely and, for scheduler properties, on the real thread pool / event loop"},
+            {"name": "CH", "path": "kernels/", "serves_properties": ["C01", "C02", "C03", "C07", "C12", "C15", "C20"],
+             "kind_free_text": "CrossHair 0.0.110 (symbolic execution of Python with z3) on PEP-316 kernels over leaf functions: key paths, argument binding, return shapes, write-once maps, id suffixes, compound priority; extra step of the listed checks, counterexamples re-executed concretely"},
         ],
         "checks": checks,
         "not_applicable": [{"property_id": p, "reason": NA_REASON} for p in props if p not in CHECKS],
